@@ -775,8 +775,8 @@ impl Check for C02 {
         {
             let c = corpus.clone();
             let count = match tier {
-                Tier::Quick => 300_000,
-                Tier::Thorough => 12_000_000,
+                Tier::Quick => 1_500_000,
+                Tier::Thorough => 40_000_000,
             };
             fams.push(Family::new("stacked_mutations", count, false, move |_i, rng| {
                 let w = mutate_stack(rng, &c);
